@@ -21,6 +21,7 @@ def check(ctx):
     decode.infeasible_pattern_masking(ctx)
     decode.fallback_to_fast(ctx)
     decode.crash_shapes(ctx, fns)
+    decode.closest_combination_distance(ctx)
     edges.check_walks(ctx, categories={'derivation', 'incompat-scan', 'default'})
     ctx.floor('A5', 2, 'result tuples of the two analyzers')
     ctx.floor('A17', 3, 'pattern look-ups by existence-map index in GraphProcessor')
